@@ -205,6 +205,12 @@ def _members(repo, mod, cls):
 
 
 def run(repo, rep):
+
+    from .shared import mirror_families, module_axis_lint
+
+    module_axis_lint(repo, rep, "C06-d", ['register_command_stream_generator', 'register_command_stream_util', 'high_level_command_to_npu_op', 'api'])
+
+    mirror_families(repo, rep, "C06-d", {('high_level_command_to_npu_op', '', 'NpuElementWiseOp'): 'elementwise operator map', ('high_level_command_to_npu_op', '', 'NpuResamplingMode'): 'resampling mode map', ('register_command_stream_generator', '', 'resampling_mode'): 'resampling mode encoding', ('high_level_command_to_npu_op', '', 'out_block'): 'OFM block config', ('high_level_command_to_npu_op', '', 'ifm2_blk'): 'IFM2 block'})
     gen = repo.mod(GEN)
     api = repo.mod("api")
     regs = repo.mod("ethos_u55_regs.ethos_u55_regs")
